@@ -291,10 +291,12 @@ func runC16(c *Ctx, r *Run) {
 }
 
 // checkTaggedHashShape: abstract byte-stream written into the hasher of TaggedHash.
-func checkTaggedHashShape(c *Ctx, r *Run) {
+func checkTaggedHashShape(c *Ctx, r *Run) { checkTaggedHashShapeAs(c, r, "SPEC-TH") }
+
+func checkTaggedHashShapeAs(c *Ctx, r *Run, rule string) {
 	fn := c.LookupFunc("pkg/taproot", "TaggedHash")
 	if fn == nil {
-		r.Unresolved("SPEC-TH", "pkg/taproot.TaggedHash")
+		r.Unresolved(rule, "pkg/taproot.TaggedHash")
 		return
 	}
 	r.Analysed(c.FuncName(fn))
@@ -316,12 +318,12 @@ func checkTaggedHashShape(c *Ctx, r *Run) {
 		}
 	})
 	if hasher == nil || sum256 == nil {
-		r.Fail("SPEC-TH", name+"|sha256", c.Pos(fn.Pos()), "TaggedHash uses crypto/sha256 New and Sum256", "hasher or tag digest not found: not SHA-256")
+		r.Fail(rule, name+"|sha256", c.Pos(fn.Pos()), "TaggedHash uses crypto/sha256 New and Sum256", "hasher or tag digest not found: not SHA-256")
 		return
 	}
 	// the tag digest is of the tag parameter
 	tagOK := dependsOn(sum256.Call.Args[0], func(v ssa.Value) bool { return v == ssa.Value(fn.Params[0]) })
-	r.Check("SPEC-TH", name+"|tag-digest", c.Pos(sum256.Pos()), tagOK, "the prefix is SHA256 of the tag parameter", "Sum256 is not applied to the tag")
+	r.Check(rule, name+"|tag-digest", c.Pos(sum256.Pos()), tagOK, "the prefix is SHA256 of the tag parameter", "Sum256 is not applied to the tag")
 	// token of a written value
 	var tokenOf func(v ssa.Value) []string
 	tokenOf = func(v ssa.Value) []string {
@@ -390,7 +392,7 @@ func checkTaggedHashShape(c *Ctx, r *Run) {
 			ordered = false
 		}
 	}
-	r.Check("SPEC-TH", name+"|stream", c.Pos(hasher.Pos()), got == want && ordered && other == "",
+	r.Check(rule, name+"|stream", c.Pos(hasher.Pos()), got == want && ordered && other == "",
 		"the hashed byte stream is "+want,
 		fmt.Sprintf("the hashed byte stream is %q (other use of the hasher: %q), BIP-340 prescribes %s: all tagged hashes change consistently, the library still verifies its own signatures but not the standard's", got, other, want))
 	// loop order: the range over datas is ascending (go range) — the IndexAddr index is the range induction variable
@@ -412,7 +414,7 @@ func checkTaggedHashShape(c *Ctx, r *Run) {
 		}
 		okSum = after && isNil && returned
 	}
-	r.Check("SPEC-TH", name+"|digest", c.Pos(fn.Pos()), okSum, "the result is Sum(nil) of that hasher, taken after all writes", "the returned value is not the plain digest taken after the writes")
+	r.Check(rule, name+"|digest", c.Pos(fn.Pos()), okSum, "the result is Sum(nil) of that hasher, taken after all writes", "the returned value is not the plain digest taken after the writes")
 	// iteration order of datas: a forward range
 	fwd := false
 	allInstrs(fn, func(in ssa.Instruction) {
@@ -434,7 +436,7 @@ func checkTaggedHashShape(c *Ctx, r *Run) {
 			}
 		}
 	})
-	r.Check("SPEC-TH", name+"|order", c.Pos(fn.Pos()), fwd, "the data fields are hashed in argument order (ascending index)", "the loop over the data fields is not an ascending index walk")
+	r.Check(rule, name+"|order", c.Pos(fn.Pos()), fwd, "the data fields are hashed in argument order (ascending index)", "the loop over the data fields is not an ascending index walk")
 }
 
 // checkSigHalves: in Verify, R.x is sig[:32] (challenge and final comparison) and s is sig[32:].
